@@ -48,7 +48,7 @@ def check(rep, tier, seed):
                 cases.append({"cmd": "srt", "w": i, "val": val, "sfx": rng.choice(R.SUFFIXES)})
                 expect.append(("rt", i, j, order.index(j)))
     # (b) families: old data under extended definitions and new data under old definitions
-    fams = [["Fam2", "Fam3", "Fam4"], ["FamS2", "FamS3"]]
+    fams = [["Fam2", "Fam3", "Fam4"], ["FamS2", "FamS3"], ["FamC2", "FamC3", "FamC4"]]
     for fam in fams:
         ids = [K.index_of(env, n) for n in fam]
         for wi in ids:
